@@ -60,6 +60,16 @@ func (o *c13) Step(r *StepRec) []Violation {
 		}
 	}
 	if a.Kind == KSetWithdr {
+		eff := a.Signer
+		if wa, ok := post.Withdraw[a.Signer]; ok {
+			eff = wa
+		}
+		if eff != a.Withdraw {
+			o.fail("c13:waddr_set", "owner %s set its withdrawal address to %s, but withdrawals would now go to %s", short(a.Signer), short(a.Withdraw), short(eff))
+		}
+		if pw, ok := pre.Withdraw[a.Signer]; ok && pw != a.Signer && a.Withdraw == a.Signer {
+			o.hit("withdraw_addr_reset_to_owner")
+		}
 		if len(pre.Earned) > 0 {
 			o.hit("withdraw_addr_set_after_earnings")
 		} else {
@@ -165,15 +175,25 @@ func (o *c13) NonTrivial() bool {
 type c14 struct {
 	oracleBase
 	m *Model
+	// bindings that a governance parameter change left available below the (new) minimum: the
+	// property speaks of "the parameters in force", so they are tolerated while nothing touches them
+	inherited map[string]bool
 }
 
-func newC14(w *World, m *Model) *c14 { return &c14{oracleBase: newBase("C14", w), m: m} }
+func newC14(w *World, m *Model) *c14 {
+	return &c14{oracleBase: newBase("C14", w), m: m, inherited: map[string]bool{}}
+}
 
 func (o *c14) Step(r *StepRec) []Violation {
 	a, pre, post := r.Action, r.Pre, r.Post
+	touched := ""
+	if r.OK && (a.Kind == KBind || a.Kind == KUpdateBind || a.Kind == KEnable) {
+		touched = bkey(a.Service, a.Provider)
+	}
 	for _, bk := range sortedKeys(post.Binds) {
 		b := post.Binds[bk]
 		if !b.Available {
+			delete(o.inherited, bk)
 			continue
 		}
 		rp, err := ParseRefPricing(b.Pricing)
@@ -182,9 +202,22 @@ func (o *c14) Step(r *StepRec) []Violation {
 			continue
 		}
 		min := o.w.cfg.MinDepositFor(rp.Base)
-		if d := stakeOf(b.Deposit); d < min {
-			o.fail("c14:"+a.Kind, "available binding %s holds %d, minimum for base price %d is %d (after %s, ok=%v)", bk, d, rp.Base, min, a.Kind, r.OK)
+		d := stakeOf(b.Deposit)
+		if d >= min {
+			delete(o.inherited, bk)
+			continue
 		}
+		if r.OK && a.Kind == KSetParams {
+			o.inherited[bk] = true
+			o.hit("left_below_minimum_by_parameter_change")
+			continue
+		}
+		p0, existed := pre.Binds[bk]
+		_ = touched
+		if o.inherited[bk] && existed && p0.Available && stakeOf(p0.Deposit) == d && p0.Pricing == b.Pricing {
+			continue // still as the parameter change left it
+		}
+		o.fail("c14:"+a.Kind, "available binding %s holds %d, minimum for base price %d is %d (after %s, ok=%v)", bk, d, rp.Base, min, a.Kind, r.OK)
 	}
 	// classification (attempts count, whether accepted or rejected)
 	bk := bkey(a.Service, a.Provider)
